@@ -27,7 +27,7 @@ def noop (s : St) : List Act := [.observe s.fsm]
 
 def matching (s : St) (e : Ev) : List Act :=
   match e with
-  | .run | .probe _ _ _ | .oldAddr _ _ | .req _ _ _ | .released _ _ | .stream _ => noop s
+  | .run | .probe _ _ _ | .oldAddr _ _ | .req _ _ _ | .released _ _ | .stream _ | .stillInFlight _ => noop s
   | .cb _ r =>
     let res : Cb := match r with
       | some (some v) => .ok v
